@@ -28,12 +28,16 @@ func (dec *Decoder) readObjectAsMap(structInfo structInfo) map[string]interface{
 		dec.refer.Add(m)
 	}
 	ptr := reflect2.PtrOf(&m)
+	dec.enter()
 	for _, name := range structInfo.names {
+		if dec.Error != nil {
+			break
+		}
 		var v interface{}
 		dec.decodeInterface(dec.NextByte(), &v)
 		t.UnsafeSetIndex(ptr, reflect2.PtrOf(name), reflect2.PtrOf(&v))
 	}
-	dec.Skip()
+	dec.leave()
 	return m
 }
 
@@ -41,7 +45,11 @@ func (dec *Decoder) readObject(structInfo structInfo) interface{} {
 	obj := structInfo.t.New()
 	dec.AddReference(obj)
 	ptr := reflect2.PtrOf(obj)
+	dec.enter()
 	for _, name := range structInfo.names {
+		if dec.Error != nil {
+			break
+		}
 		if field, ok := structInfo.fields[name]; ok {
 			field.Decode(dec, field.Type.Type1(), field.Field.UnsafeGet(ptr))
 		} else {
@@ -49,7 +57,7 @@ func (dec *Decoder) readObject(structInfo structInfo) interface{} {
 			dec.decodeInterface(dec.NextByte(), &v)
 		}
 	}
-	dec.Skip()
+	dec.leave()
 	if dec.StructType == StructTypeValue {
 		return structInfo.t.UnsafeIndirect(ptr)
 	}
@@ -90,22 +98,29 @@ func (valdec *structDecoder) decodeObject(dec *Decoder, p interface{}) {
 	structInfo := dec.getStructInfo(index)
 	dec.AddReference(p)
 	ptr := reflect2.PtrOf(p)
+	dec.enter()
 	for _, name := range structInfo.names {
+		if dec.Error != nil {
+			break
+		}
 		valdec.decodeField(dec, ptr, name)
 	}
-	dec.Skip()
+	dec.leave()
 }
 
 func (valdec *structDecoder) decodeMapAsObject(dec *Decoder, p interface{}) {
 	ptr := reflect2.PtrOf(p)
 	count := dec.ReadCount()
+	if !dec.enter() {
+		count = 0
+	}
 	dec.AddReference(p)
 	for i := 0; i < count && dec.Error == nil; i++ {
 		var name string
 		dec.decodeString(stringType, dec.NextByte(), &name)
 		valdec.decodeField(dec, ptr, name)
 	}
-	dec.Skip()
+	dec.leave()
 }
 
 func (valdec *structDecoder) Decode(dec *Decoder, p interface{}, tag byte) {
